@@ -140,6 +140,12 @@ fn visit_dependent_rule_ids<'a, T: DependentRule>(
   if let Maybe::Present(not) = &rule.not {
     visit_dependent_rule_ids(not, sort)?;
   }
+  // nthChild's ofRule is tested on all siblings, including the node itself
+  if let Maybe::Present(nth) = &rule.nth_child {
+    if let Some(of_rule) = nth.of_rule() {
+      visit_dependent_rule_ids(of_rule, sort)?;
+    }
+  }
   Ok(())
 }
 
